@@ -87,6 +87,11 @@ CHECKS = {
     note='Trusted: z3, transliterator, skeleton executor (opaque conditions independent: over-approximation). CyRK internals, hangs and NaN material values inside the integrator are outside.',
     technique='symbolic execution of the control skeleton (path conditions in z3) + replay on the real build',
     design='2/C06'),
+ 'C18': dict(
+    text='Bounded symbolic exploration with crash points as solver variables: the real multiprocessing_run source is executed twice on an in-memory file system; in run 1 every file-system effect of case i carries the guard k_i > s (k_i symbolic progress counter = kill point; fail_i symbolic failing cases); run 2 restarts on that symbolic file system, forking on every existence/content query; z3 decides per obligation (no exception, one result per case, values equal to an uninterrupted run, no re-execution of completed cases, own case number/index) that no feasible (k, fail) reaches a bad outcome. Models are replayed on the REAL function: the interrupted directory is reconstructed from a complete real run and restarted for real.',
+    note='Trusted: z3, the FS/pool/psutil stubs (cases touch disjoint files, so per-case counters cover all interleavings), header written before the interruption. Grids up to 2x2(+must-include) / 3x2 thorough, <=1 failing case, one interruption. Real process kills and partial writes are outside.',
+    technique='symbolic execution of the real function over a symbolic file system with crash counters as z3 integers (path exploration + z3), replay on the real code',
+    design='2/C18'),
 }
 NOT_YET = {}
 ALL = ['C%02d' % i for i in range(1, 21)]
